@@ -7,10 +7,10 @@ import os
 
 REPO = os.environ.get('VERIF_DEV_REPO') or '/repo'
 
-REFERENCE = {'source': 'deep', 'lookupForeign': 'deep', 'lookupWritesInput': True,
+REFERENCE = {'source': 'deep', 'pipelineCopy': 'deep', 'lookupForeign': 'deep', 'lookupWritesInput': True,
              'addFieldsTop': 'shallow', 'addFieldsNested': 'shallow', 'unwindDoc': 'deep',
              'unwindItem': 'deep', 'unwindIndexed': 'deep', 'samplePops': False,
-             'facetSharesInput': False, 'literal': 'deep', 'constArray': 'deep',
+             'facetSharesInput': False, 'literal': 'deep', 'arrayConst': 'evaluated',
              'outStores': 'deep'}
 
 _DEEP = ('copy.deepcopy', 'deepcopy')
@@ -127,27 +127,44 @@ def _assigned_kind(fn, name, before):
 
 
 def _unwind_item(uw):
-    """which array element does an output document of `$unwind` hold?  Inside the loop over
-    `iter_array` the loop variable `field_item` is the ORIGINAL element; it must be re-assigned
-    from the per-element copy (`field_item = …(new_doc, path)[index]`, after `new_doc` was
-    deep-copied) before `set_value_by_dot(new_doc, path, field_item)` attaches it."""
+    """which array element / non-array value does an output document of `$unwind` hold?  Inside
+    the loop over `iter_array` the loop variable `field_item` is the ORIGINAL one.  `deep` when
+    (a) it is re-assigned from the per-element copy (`field_item = …(new_doc, path)[index]`,
+    `new_doc` a deep copy) before `set_value_by_dot(new_doc, path, field_item)` attaches it, and
+    (b) that attachment happens only where it was re-assigned (inside the same `if index is not
+    None:`), so that a value that is no array stays the copy's own."""
     for loop in ast.walk(uw):
         if not (isinstance(loop, ast.For) and ast.unparse(loop.iter) == 'iter_array'):
             continue
         item = [ast.unparse(e) for e in loop.target.elts][-1] if isinstance(
             loop.target, ast.Tuple) else ast.unparse(loop.target)
-        attach = [n for n in ast.walk(loop) if isinstance(n, ast.Call)
-                  and ast.unparse(n.func).endswith('set_value_by_dot')
-                  and len(n.args) == 3 and ast.unparse(n.args[2]) == item]
+
+        def is_attach(n):
+            return isinstance(n, ast.Call) and ast.unparse(n.func).endswith('set_value_by_dot') \
+                and len(n.args) == 3 and ast.unparse(n.args[2]) == item
+
+        def is_reassign(n):
+            return isinstance(n, ast.Assign) and any(
+                isinstance(t, ast.Name) and t.id == item for t in n.targets)
+        attach = [n for n in ast.walk(loop) if is_attach(n)]
         if not attach:
-            return 'none'
-        re = [n for n in ast.walk(loop) if isinstance(n, ast.Assign)
-              and any(isinstance(t, ast.Name) and t.id == item for t in n.targets)
-              and n.lineno < attach[0].lineno]
-        if re and all('new_doc' in ast.unparse(n.value) and 'index' in ast.unparse(n.value)
-                      for n in re) and _assigned_kind(uw, 'new_doc', re[0].lineno) == 'deep':
-            return 'deep'
-        return 'none'
+            return 'deep'        # nothing of the input is attached to the copy
+        for at in attach:
+            # the innermost `if` of the loop body that holds this attachment
+            holder = None
+            for cond in ast.walk(loop):
+                if isinstance(cond, ast.If) and any(m is at for b_ in cond.body for m in ast.walk(b_)):
+                    holder = cond
+            if holder is None or 'index is not None' not in ast.unparse(holder.test):
+                return 'none'
+            re = [m for b_ in holder.body for m in ast.walk(b_)
+                  if is_reassign(m) and m.lineno < at.lineno]
+            if not re or not all('new_doc' in ast.unparse(m.value) and 'index' in ast.unparse(m.value)
+                                 for m in re):
+                return 'none'
+            if _assigned_kind(uw, 'new_doc', re[0].lineno) != 'deep':
+                return 'none'
+        return 'deep'
     return 'none'
 
 
@@ -170,6 +187,67 @@ def _unwind_indexed(uw):
     return _weakest(kinds) if kinds else 'none'
 
 
+def _rebuilds_containers(fn):
+    """does a helper `f(value)` return a NEW dict for every dict and a NEW list for every list,
+    built from `f` of the items (so that no container of the argument is handed back)?"""
+    name = fn.name
+    dict_ok = list_ok = False
+    for n in ast.walk(fn):
+        if isinstance(n, ast.If) and 'isinstance(value' in ast.unparse(n.test):
+            rets = [m for m in n.body if isinstance(m, ast.Return)]
+            if not rets:
+                continue
+            r, test = rets[0].value, ast.unparse(n.test)
+            inner = name + '(' in ast.unparse(r)
+            if ('best_type' in test or 'dict' in test) and isinstance(r, ast.Call) and inner:
+                dict_ok = True
+            if 'list' in test and isinstance(r, ast.ListComp) and inner:
+                list_ok = True
+    return dict_ok and list_ok
+
+
+def _pipeline_copy(a, hlp):
+    """`Collection.aggregate`: is the pipeline that reaches `process_pipeline` a rebuilt one?
+    `pipeline = helpers.<f>(pipeline)` with a container-rebuilding `<f>`, unconditionally, above
+    the call of `process_pipeline`."""
+    call = [n for n in ast.walk(a) if isinstance(n, ast.Call)
+            and ast.unparse(n.func).endswith('process_pipeline')]
+    if not call or 'pipeline' not in [ast.unparse(x) for x in call[0].args]:
+        return 'none'
+    for n in a.body:                       # top-level statements only: unconditional
+        if isinstance(n, ast.Assign) and n.lineno < call[0].lineno and any(
+                isinstance(t, ast.Name) and t.id == 'pipeline' for t in n.targets) and \
+                isinstance(n.value, ast.Call) and n.value.args and \
+                ast.unparse(n.value.args[0]) == 'pipeline':
+            f = ast.unparse(n.value.func)
+            if f in _DEEP:
+                return 'deep'
+            fn = hlp.get(f.split('.')[-1])
+            if f.startswith('helpers.') and fn is not None and _rebuilds_containers(fn):
+                return 'deep'
+    return 'none'
+
+
+def _array_const(branch_if):
+    """an array in expression position (`if isinstance(expression, list):`): `evaluated` when the
+    branch returns a new list built from the parsed items, else how the list is handed out"""
+    if branch_if is None:
+        return 'none'
+    src = ' '.join(ast.unparse(m) for m in branch_if.body)
+    ret = [m for m in branch_if.body if isinstance(m, ast.Return)]
+    if ret and isinstance(ret[0].value, (ast.ListComp, ast.List)) and '_parse' in src and \
+            'for item in expression' in src:
+        return 'evaluated'
+    return _returned_copy(ret[0]) if ret else 'none'
+
+
+def _branch_if(fn, marker):
+    for n in ast.walk(fn):
+        if isinstance(n, ast.If) and marker in ast.unparse(n.test):
+            return n
+    return None
+
+
 def extract():
     agg = _funcs(os.path.join(REPO, 'mongomock', 'aggregate.py'))
     col = _funcs(os.path.join(REPO, 'mongomock', 'collection.py'))
@@ -177,6 +255,7 @@ def extract():
     a = col['aggregate']
     d['source'] = 'deep' if 'self.find' in _calls(a) else (
         'deep' if any('deepcopy' in c for c in _calls(a)) else 'none')
+    d['pipelineCopy'] = _pipeline_copy(a, _funcs(os.path.join(REPO, 'mongomock', 'helpers.py')))
     lk = agg['_handle_lookup_stage']
     d['lookupForeign'] = 'deep' if 'foreign_collection.find' in _calls(lk) else 'none'
     loop_vars = [ast.unparse(n.target) for n in ast.walk(lk)
@@ -216,14 +295,16 @@ def extract():
         for n in pp))
     lit = _branch_return(agg['_handle_projection_operator'], "'$literal'")
     d['literal'] = _returned_copy(lit) if lit is not None else 'none'
-    arr = _branch_return(agg['_parse_basic_expression'], 'isinstance(expression, list)')
-    d['constArray'] = _returned_copy(arr) if arr is not None else 'none'
+    d['arrayConst'] = _array_const(
+        _branch_if(agg['_parse_basic_expression'], 'isinstance(expression, list)'))
     out = agg['_handle_out_stage']
     d['outStores'] = 'deep' if 'out_collection.insert_many' in _calls(out) else 'none'
     return d
 
 
-def _lean(v):
+def _lean(v, k=None):
+    if k == 'arrayConst':
+        return '.evaluated' if v == 'evaluated' else '.copied ' + _lean(v)
     if v is True:
         return 'true'
     if v is False:
@@ -233,7 +314,7 @@ def _lean(v):
 
 def write_lean(path):
     d = extract()
-    fields = ', '.join('%s := %s' % (k, _lean(d[k])) for k in REFERENCE)
+    fields = ', '.join('%s := %s' % (k, _lean(d[k], k)) for k in REFERENCE)
     src = '''/- GENERATED by harness/extract_agg_discipline.py from mongomock/{aggregate,collection}.py of the
    tree under check (/repo, or $VERIF_DEV_REPO) on every run of ./check C16.  Do not edit. -/
 import MongoModel.AggHeap
